@@ -359,3 +359,15 @@ func (s *sqSubj[T]) DoHostile(op Op) {
 		hostileIdxIter[T](s.iter(), op.A[1])
 	}
 }
+
+func (s *sqSubj[T]) EncodeModel() []byte {
+	m := slices.Clone(s.m)
+	if m == nil {
+		return []byte("[]")
+	}
+	if s.lifo && !s.jsonTopFirst() {
+		slices.Reverse(m)
+	}
+	return mustJSON(m)
+}
+func (s *sqSubj[T]) AdoptModel(from Subject) { s.m = slices.Clone(from.(*sqSubj[T]).m) }
